@@ -302,6 +302,8 @@ class Incarnation:
             if nm == "a":
                 grid = np.asarray(model.states["a"].to_jax())
                 arr = np.array([grid[ag["a"][1]] if ag["a"][0] == "n" else ag["a"][1] for ag in agents], dtype=np.float64)
+                if b.get("a_dtype", "float64") != "float64":
+                    arr = arr.astype(np.dtype(b["a_dtype"]))
             else:
                 arr = np.array([ag[nm] for ag in agents], dtype=np.dtype(b.get("int_dtype", "int64")))
             out[nm] = self.jnp.array(arr) if form == "jax" else arr
